@@ -105,7 +105,10 @@ def _case(draw, nhist, modes):
 def shards(tier):
   q = tier == "quick"
   return [{"name": "plain", "examples": 12 * (24 if q else 450), "workers": 12, "nhist": 3 if q else 8, "modes": ["plain"]},
-          {"name": "sharded", "examples": 4 * (20 if q else 350), "workers": 4, "nhist": 3 if q else 8, "modes": ["sharded"]}]
+          {"name": "sharded", "examples": 3 * (20 if q else 350), "workers": 3, "nhist": 3 if q else 8, "modes": ["sharded"]},
+          # pmap over 2 host devices (batch_axis_name set); the LAST replica's update and state are compared
+          {"name": "pmap", "examples": 16 if q else 300, "workers": 1, "nhist": 3 if q else 8, "modes": ["pmap"],
+           "env": {"devices": 2}}]
 
 
 def strategy(shard):
@@ -127,9 +130,16 @@ def full_opts(o):
   return f
 
 
+def case_env(case):
+  return {"devices": 2} if case.get("mode") == "pmap" else {}
+
+
 def readout(state, mode, names, layouts):
   """Per leaf dict of float64 fields + raw float32 preconditioner arrays."""
   out = {}
+  if mode == "pmap":
+    import jax
+    state = jax.tree.map(lambda x: x[-1], state)     # the last replica's copy
   for n, lay in zip(names, layouts):
     if mode == "sharded":
       ls = state.stats.local_stats[n]
@@ -192,6 +202,20 @@ def build(case):
     with ctx:
       state0 = opt.init(None).init_fn(params)
       upd = jax.jit(opt.update)
+  elif case["mode"] == "pmap":
+    ndev = 2
+    if jax.local_device_count() < ndev:
+      raise RuntimeError("pmap mode needs 2 host devices (worker environment)")
+    opt = dsh.make_opt(case["o"], "pmap", ndev)
+    ctx = contextlib.nullcontext()
+    rep = lambda t: jax.tree.map(lambda x: np.stack([np.asarray(x)] * ndev), t)
+    prep = rep(params)
+    state0 = jax.pmap(opt.init, axis_name="batch", devices=jax.devices()[:ndev])(prep)
+    pupd = jax.pmap(opt.update, axis_name="batch", devices=jax.devices()[:ndev])
+
+    def upd(g, st, _):
+      u, st = pupd(rep(g), st, prep)
+      return jax.tree.map(lambda x: x[-1], u), st
   else:
     opt = dsh.make_opt(case["o"], "plain")
     ctx = contextlib.nullcontext()
@@ -208,6 +232,10 @@ def check(case):
   shapes = [tuple(s) for s in case["shapes"]]
   names = [f"p{i}" for i in range(len(shapes))]
   layouts = [ref.Layout(s, o) for s in shapes]
+  if mode == "pmap" and not any(lay.stat_sizes() for lay in layouts):
+    # no statistics at all: the pmapped program of such a tree crashes the XLA CPU compiler (segfault inside
+    # backend_compile, before any library code runs) - not observable, not this property's subject
+    return Result(False, ["mode=pmap", "no-statistics-not-run"])
   params, state0, upd, ctx = build(case)
   pnp = [np.asarray(params[n], np.float64) for n in names]
   thr = o["inverse_failure_threshold"]
@@ -216,7 +244,7 @@ def check(case):
   nontrivial = False
   nsteps = kept = compared = skipped_eigh = range_skipped = 0
   worst = 0.0
-  e2e_ok = eps >= 1e-3 and mode == "plain"
+  e2e_ok = eps >= 1e-3 and mode in ("plain", "pmap")
   with ctx:
     for hspec in case["histories"]:
       hist = dsh.history_np(hspec, shapes)
@@ -232,7 +260,8 @@ def check(case):
       for c, gs in enumerate(hist):
         gs32 = [np.asarray(g, np.float32) for g in gs]
         updates, state = upd(dsh.to_tree(gs32), state, params)
-        require(int(state.count) == c + 1, "count", f"count {int(state.count)} after {c + 1} updates")
+        count = int(np.asarray(state.count).reshape(-1)[-1])
+        require(count == c + 1, "count", f"count {count} after {c + 1} updates")
         new = readout(state, mode, names, layouts)
         lr = dsh.lr_value(case["o"], c)
         nsteps += 1
@@ -310,7 +339,7 @@ def check(case):
                                     f"{tag} preconditioner {k} (exponent {lay.exponent}, ridge {d:.3g}, reported error {err:.3g})"))
             compared += 1
           # ---- transform
-          used = nw["pres"] if mode == "plain" else pv["pres"]
+          used = pv["pres"] if mode == "sharded" else nw["pres"]
           uref, fields, bounds = ref.transform(lay, o, g, pnp[i], pv, used, c, lr)
           u = np.asarray(updates[n], np.float64)
           if bounds["norm_outside_float32_range"]:
